@@ -306,6 +306,15 @@ def check_variant(ctx, tf, vname, raw_ts, ref, desc, eager0):
         if raw_ts:
             continue
         attempt('read_data(scaled=False)', lambda: ch.read_data(scaled=False), U, 'unscaled')
+        if n:
+            # an integer lookup first (it leaves a scaled chunk in the channel's cache), then unscaled windows inside that chunk
+            def after_lookup(o_, l_):
+                ch[o_]
+                return ch.read_data(o_, l_, scaled=False)
+            for o_, l_ in ((0, 1), (0, 2), (n - 1, 1)):
+                wantU = {k_: v_[o_:o_ + l_] for k_, v_ in U.items()} if isinstance(U, dict) else U[o_:o_ + l_]
+                if R is not None or not isinstance(U, dict):
+                    attempt('[i] then read_data(i,m,scaled=False)', lambda: after_lookup(o_, l_), wantU, 'unscaled-after-lookup')
         if not is_lazy:
             if isinstance(U, dict):
                 attempt('raw_scaler_data', lambda: ch.raw_scaler_data, U, 'unscaled')
